@@ -5,9 +5,9 @@
    [unravel] row-major; [bproj s b] = index of the unexpanded operand of shape s read by element
    b of the broadcast result; [batched_tab] = the output tensor (storage order) of an operation
    applied to parameter slice [bproj sp b] and data slice [bproj sd b]. *)
-From Coq Require Import Arith List.
+From Coq Require Import Arith List Lia.
 Import ListNotations.
-From GPV Require Import Base.LinAlg Models.C08_shape Proofs.C08_shape Models.C08_diag Proofs.C08_diag Models.C08_prior Proofs.C08_prior.
+From GPV Require Import Base.LinAlg Models.C08_shape Proofs.C08_shape Models.C08_diag Proofs.C08_diag Models.C08_prior Proofs.C08_prior Models.C08_index Proofs.C08_index.
 
 (* row-major ravel/unravel round trips, all ranks, all shapes *)
 Theorem c08_ravel_unravel :
@@ -206,6 +206,72 @@ Theorem c08_param_rank_short_spec :
   forall sp sd t, broadcast_shapes sp sd = Some t -> (param_rank_short sp t = false <-> length t = length sp).
 Proof. exact param_rank_short_spec. Qed.
 Print Assumptions c08_param_rank_short_spec.
+
+(* ---- element b obtained THROUGH the library's indexing of a batched lazy object (Models/C08_index.v): X[i] for a
+   partial batch index i.  Element b' of X[i] is the replica of element i ++ b' -- every rank, every broadcast
+   pattern, every prefix index (indexing inputs AND kernel parameters, both brought to the broadcast batch) *)
+Theorem c08_partial_index_is_replica :
+  forall (P D O : Type) sp sd t (op : P -> D -> O) param data i b',
+    valid t (i ++ b') ->
+    lazy_index sp sd t op param data i b' = batched sp sd op param data (i ++ b').
+Proof. intros P D O. exact (@lazy_index_is_replica P D O). Qed.
+Print Assumptions c08_partial_index_is_replica.
+
+Theorem c08_full_index_is_replica :
+  forall (P D O : Type) sp sd t (op : P -> D -> O) param data b,
+    valid t b -> lazy_index sp sd t op param data b [] = batched sp sd op param data b.
+Proof. intros P D O. exact (@lazy_index_full P D O). Qed.
+Print Assumptions c08_full_index_is_replica.
+
+(* indexing the inputs but NOT the kernel parameters (the shortcut taken when some batch index is a full slice): wrong
+   batch shape and wrong pairing of parameter and data slices for parameter batch rank 2 *)
+Theorem c08_index_data_only_shape_refuted :
+  exists sp sd t i, broadcast_shapes sp sd = Some t /\ length i < length t /\
+    lazy_index_data_only_shape sp t i <> Some (lazy_index_shape t i).
+Proof. exact lazy_index_data_only_shape_refuted. Qed.
+Print Assumptions c08_index_data_only_shape_refuted.
+
+Theorem c08_index_data_only_value_refuted :
+  exists sp sd t (op : index -> index -> index * index) param data i b',
+    broadcast_shapes sp sd = Some t /\ valid t (i ++ b') /\
+    lazy_index_data_only sp sd t op param data i b' <> batched sp sd op param data (i ++ b').
+Proof. exact lazy_index_data_only_value_refuted. Qed.
+Print Assumptions c08_index_data_only_value_refuted.
+
+(* ---- list wrappers called with keyword arguments: member k receives its own positional argument and the SAME
+   keyword arguments (and entry k of a per-member noise list) *)
+Theorem c08_model_list_kwargs :
+  forall (A KW B : Type) (ms : list (A -> KW -> B)) (xs : list A) (kw : KW) k,
+    nth_error (model_list_kw ms xs kw) k =
+    match nth_error ms k, nth_error xs k with
+    | Some m, Some x => Some (m x kw)
+    | _, _ => None
+    end.
+Proof. intros A KW B. exact (@model_list_kw_nth A KW B). Qed.
+Print Assumptions c08_model_list_kwargs.
+
+Theorem c08_model_list_kwargs_noise :
+  forall (A KW B NZ : Type) (ms : list (A -> KW -> NZ -> B)) (xs : list A) (kw : KW) (nz : list NZ) k,
+    length ms = length xs -> length xs = length nz ->
+    nth_error (model_list_kw_noise ms xs kw nz) k =
+    match nth_error ms k, nth_error xs k, nth_error nz k with
+    | Some m, Some x, Some n => Some (m x kw n)
+    | _, _, _ => None
+    end.
+Proof. intros A KW B NZ. exact (@model_list_kw_noise_nth A KW B NZ). Qed.
+Print Assumptions c08_model_list_kwargs_noise.
+
+(* a wrapper that drops the keyword arguments is not "exactly its members' outputs" *)
+Theorem c08_model_list_kwargs_dropped_refuted :
+  exists (ms : list (nat -> nat -> nat)) xs dflt kw,
+    model_list_kw_dropped dflt ms xs kw <> model_list_kw ms xs kw.
+Proof. exact model_list_kw_dropped_refuted. Qed.
+Print Assumptions c08_model_list_kwargs_dropped_refuted.
+
+(* non-vacuity of the partial-index hypotheses *)
+Example ex_c08_partial_index : valid [2; 3] ([1] ++ [2]) /\ lazy_index_shape [2; 3] [1] = [3].
+Proof. split; [cbn; lia|reflexivity]. Qed.
+Print Assumptions ex_c08_partial_index.
 
 (* non-vacuity: parameters of batch shape [2;1] against data of batch shape [3] *)
 Example ex_c08_broadcast :
